@@ -10,6 +10,7 @@ mod crash;
 mod gen;
 mod oracle;
 mod plan;
+mod powerloss;
 mod props;
 mod rng;
 mod runner;
